@@ -1,1 +1,131 @@
-// placeholder
+// Included at the end of abra_core/src/parse.rs under cfg(all(kani, abra_verif)).
+// C31: the operator tables and the operator-recognition kernels of the Pratt parser.
+mod verif {
+    #![allow(unused, dead_code, clippy::all)]
+    use super::*;
+
+    fn tok(kind: TokenKind, at: usize) -> Token {
+        Token { kind, span: Span { lo: at, hi: at + 1 } }
+    }
+    fn mk_parser(tokens: Vec<Token>) -> Parser {
+        Parser::new(tokens, 0, 16)
+    }
+
+    // the documented table (book/src/language_reference/operators.md), lowest to highest
+    fn documented_binary(op: &BinaryOperator) -> u8 {
+        match op {
+            BinaryOperator::And | BinaryOperator::Or => 1,
+            BinaryOperator::Equal | BinaryOperator::NotEqual => 2,
+            BinaryOperator::Format => 3,
+            BinaryOperator::LessThan | BinaryOperator::LessThanOrEqual | BinaryOperator::GreaterThan | BinaryOperator::GreaterThanOrEqual => 5,
+            BinaryOperator::Add | BinaryOperator::Subtract => 6,
+            BinaryOperator::Multiply | BinaryOperator::Divide => 7,
+            BinaryOperator::Mod => 8,
+            BinaryOperator::Pow => 9,
+        }
+    }
+
+    // which binary operator each token denotes, and its documented precedence
+    #[kani::proof]
+    #[kani::unwind(4)]
+    fn c31_binop_tokens_and_table() {
+        let k: u8 = kani::any();
+        kani::assume(k < 17);
+        let (kind, want): (TokenKind, Option<(u8, u8)>) = match k {
+            0 => (TokenKind::Plus, Some((6, 0))),
+            1 => (TokenKind::Minus, Some((6, 1))),
+            2 => (TokenKind::Star, Some((7, 2))),
+            3 => (TokenKind::Slash, Some((7, 3))),
+            4 => (TokenKind::EqEq, Some((2, 4))),
+            5 => (TokenKind::NotEq, Some((2, 5))),
+            6 => (TokenKind::Lt, Some((5, 6))),
+            7 => (TokenKind::Le, Some((5, 7))),
+            8 => (TokenKind::Gt, Some((5, 8))),
+            9 => (TokenKind::Ge, Some((5, 9))),
+            10 => (TokenKind::Mod, Some((8, 10))),
+            11 => (TokenKind::Caret, Some((9, 11))),
+            12 => (TokenKind::DotDot, Some((3, 12))),
+            13 => (TokenKind::And, Some((1, 13))),
+            14 => (TokenKind::Or, Some((1, 14))),
+            15 => (TokenKind::Eq, None),
+            _ => (TokenKind::Comma, None),
+        };
+        let mut v = Vec::with_capacity(2);
+        v.push(tok(kind, 0));
+        v.push(tok(TokenKind::Eof, 1));
+        let mut p = mk_parser(v);
+        let got = p.parse_binop();
+        match (got, want) {
+            (None, None) => {}
+            (Some(op), Some((prec, id))) => {
+                assert!(op.precedence() == prec, "binary operator precedence as documented");
+                assert!(documented_binary(&op) == prec);
+                let same = match (id, &op) {
+                    (0, BinaryOperator::Add) | (1, BinaryOperator::Subtract) | (2, BinaryOperator::Multiply) | (3, BinaryOperator::Divide)
+                    | (4, BinaryOperator::Equal) | (5, BinaryOperator::NotEqual) | (6, BinaryOperator::LessThan) | (7, BinaryOperator::LessThanOrEqual)
+                    | (8, BinaryOperator::GreaterThan) | (9, BinaryOperator::GreaterThanOrEqual) | (10, BinaryOperator::Mod) | (11, BinaryOperator::Pow)
+                    | (12, BinaryOperator::Format) | (13, BinaryOperator::And) | (14, BinaryOperator::Or) => true,
+                    _ => false,
+                };
+                assert!(same, "each token denotes its own operator");
+            }
+            _ => assert!(false, "token recognised as a binary operator iff it is one"),
+        }
+        kani::cover!(k == 11, "req: power");
+        kani::cover!(k == 16, "req: not an operator");
+        std::mem::forget(p);
+    }
+
+    #[kani::proof]
+    fn c31_prefix_postfix_tables() {
+        assert!(PrefixOp::Minus.precedence() == 6, "unary minus binds like binary + and -");
+        assert!(PrefixOp::Not.precedence() == 10, "not");
+        assert!(PostfixOp::MemberAccess.precedence() == 11 && PostfixOp::IndexAccess.precedence() == 12);
+        // postfix operators bind tighter than every prefix and binary operator
+        assert!(PostfixOp::FuncCall.precedence() > 10 && PostfixOp::Unwrap.precedence() > 10 && PostfixOp::Try.precedence() > 10);
+        kani::cover!(true, "req: reachable");
+    }
+
+    // A leading `-` is the prefix operator whatever follows it (variable, literal, parenthesis),
+    // so that `-2 % 3` groups like `-x % 3`.
+    #[kani::proof]
+    #[kani::unwind(4)]
+    fn c31_minus_is_prefix_regardless_of_operand() {
+        let k: u8 = kani::any();
+        kani::assume(k < 4);
+        let next = match k {
+            0 => TokenKind::Ident(String::new()),
+            1 => TokenKind::IntLit(String::new()),
+            2 => TokenKind::FloatLit(String::new()),
+            _ => TokenKind::OpenParen,
+        };
+        let mut v = Vec::with_capacity(3);
+        v.push(tok(TokenKind::Minus, 0));
+        v.push(tok(next, 1));
+        v.push(tok(TokenKind::Eof, 2));
+        let mut p = mk_parser(v);
+        let got = p.parse_prefix_op();
+        assert!(matches!(got, Some(PrefixOp::Minus)), "a leading minus is the prefix operator whatever its operand is");
+        kani::cover!(k == 1, "req: integer literal operand");
+        kani::cover!(k == 0, "req: variable operand");
+        std::mem::forget(p);
+    }
+
+    #[kani::proof]
+    #[kani::unwind(4)]
+    fn c31_not_is_prefix_and_others_are_not() {
+        let k: u8 = kani::any();
+        kani::assume(k < 4);
+        let kind = match k { 0 => TokenKind::Not, 1 => TokenKind::Plus, 2 => TokenKind::Bang, _ => TokenKind::Ident(String::new()) };
+        let mut v = Vec::with_capacity(2);
+        v.push(tok(kind, 0));
+        v.push(tok(TokenKind::Eof, 1));
+        let mut p = mk_parser(v);
+        let got = p.parse_prefix_op();
+        assert!(matches!(got, Some(PrefixOp::Not)) == (k == 0), "only `not` (and `-`) are prefix operators");
+        kani::cover!(k == 0, "req: not");
+        std::mem::forget(p);
+    }
+
+    include!(concat!(env!("ABRA_VERIF_HARNESS_DIR"), "/parse_playback.rs"));
+}
